@@ -1,11 +1,61 @@
 NOTES = ("Static analysis only (go/packages + go/ssa, x/tools v0.29.0): nothing in /repo is built or executed by the checks. "
          "Two genuine defects were repaired by fix: commits in /repo (see known_findings.txt and DESIGN.md section 6).")
 ENGINES = [
- {"name": "edcheck", "path": "/verif/cmd/edcheck", "serves_properties": ["C04"], "kind_free_text": "repository-specific static analyser over go/ssa: finite predicate abstraction (F), constant audits (A)"},
+ {"name": "edcheck", "path": "/verif/cmd/edcheck", "serves_properties": ["C01","C02","C03","C04","C05","C06","C07","C09","C10","C11","C12","C14","C17"],
+  "kind_free_text": "repository-specific static analyser over go/ssa: path/term engine (guards G, operand shapes S, hash transcripts H), finite predicate abstraction (F), batch structure via per-iteration region paths and affine indices (B), constant audits (A)"},
 ]
 NA = {}
+TB = "Trusted: go/packages, go/types, go/ssa (x/tools v0.29.0); the specification tables in /verif/cmd/edcheck (transcribed from the property statement and README). A rewrite into a shape the analyser does not model is reported as unrecognised (fail closed), which is a deliberate limit, not a counter-example."
 def fill(chk):
+    chk("C01", "other",
+        "Decides the composition: the decision structure of single verification (all control-flow paths of the verifier core, its no-panic wrapper and both entry points) equals the documented guard set on every world of a finite partition (length classes x top-byte classes x truth of the opaque predicates), no other rejection reason exists, and the accepted value is the cofactored equation over the documented operands with the challenge hashed over the bytes as supplied; S<L is proved exact by finite predicate abstraction.",
+        TB + " Not decided: that the primitives (decode, scalar mult, field/scalar arithmetic) compute what their names say.",
+        "path enumeration + guard truth tables + def-use term reconstruction on go/ssa", "DESIGN.md section 5 C01")
+    chk("C02", "other",
+        "Decides the RFC 8032 composition of signing and key derivation as exact uninterpreted terms (both hash transcripts, clamp as byte truth tables, S = Contract(Add(Mul(h,a),r)), R = Pack([r]B)), the option dispatch of the crypto.Signer entry point for all three ways of passing options, and that the entropy argument has zero uses.",
+        TB + " Not decided: byte-exactness of the arithmetic primitives.",
+        "def-use term reconstruction + hash-transcript typestate + guard truth tables on go/ssa", "DESIGN.md section 5 C02")
+    chk("C03", "other",
+        "Decides sibling agreement between signer and all verifiers (same challenge transcript and dom2 rule, single and batch), that S is the Contract of the reducing scalar Add without post-processing, that no verifier (single, batch fast path, fallback, remainder) has a rejection reason outside the documented list, and that the one magnitude test is exactly S<L.",
+        TB + " Not decided: honest R and A are never small order (group theory) and the arithmetic.",
+        "term/transcript comparison across sibling functions + guard truth tables + batch region analysis", "DESIGN.md section 5 C03")
     chk("C04", "proof",
-        "Exhaustive abstract evaluation of the scalar-admissibility predicate over a finite predicate abstraction of all 2^256 scalars (concrete top byte x order of each 64-bit word relative to L): every class evaluates to a definite verdict and it equals S<L; the order constant as written equals L.",
-        "Trusted: soundness of the partition (byte 31 is the top byte of little-endian word 3), go/ssa, math/big. A rewrite of the predicate in a shape the evaluator does not model is reported as unrecognised (fail closed).",
-        "finite predicate abstraction evaluated exhaustively on go/ssa + constant audit", "DESIGN.md section 5 C04, section 4 F")
+        "Exhaustive abstract evaluation of the scalar-admissibility predicate over a finite predicate abstraction of all 2^256 scalars (concrete top byte x order of each 64-bit word relative to L): every class evaluates to a definite verdict and it equals S<L; the order constant as written equals L; every verifier mode (single default/ZIP-215, batch fast path, fallback, remainder) gates on exactly this predicate and the S bytes flow nowhere else but the scalar expansion.",
+        TB + " Also trusted: soundness of the partition (byte 31 is the top byte of little-endian word 3), math/big.",
+        "finite predicate abstraction evaluated exhaustively on go/ssa + constant audit + guard truth tables", "DESIGN.md section 5 C04, section 4 F")
+    chk("C05", "other",
+        "Decides that the ZIP-215 flag influences only the two small-order rejections (every read of the option field is enumerated), identically in the single verifier and the batch fast path and passed unchanged through the plumbing and the fallback; with the flag set the accepted set is the ZIP-215 list and the truth table dominates the default one pointwise.",
+        TB + " Not decided: the primitives.",
+        "guard truth tables with the flag as an atom + referrer enumeration + batch region analysis", "DESIGN.md section 5 C05")
+    chk("C06", "other",
+        "Decides the structural half of batch = single: entry-index discipline i+offset at every access in every loop (including chunks with offset>0 that tests never run), slot map, phase order and dominance by the fast-path flag, fail-then-fallback discipline, per-entry guard agreement with the single verifier, fresh randomisers per chunk, clean hash object at every iteration boundary, fallback/remainder delegating to the single verifier with one and the same index, and the documented returns.",
+        TB + " Not decided: the 2^-120 probabilistic soundness and the multi-scalar arithmetic.",
+        "per-iteration region path enumeration with affine index normal forms + dominator queries on go/ssa", "DESIGN.md section 5 C06, section 4 B")
+    chk("C07", "other",
+        "Decides the context-length partition {0},{1..255},{256..} and the hash-selector x digest-length table exactly, the dom2 encoding (RFC prefix, flag byte, lossless length byte, context) and its placement before R||A||M at every hash site iff the variant is not pure, the flag constants, and the refusal surfaces of Sign / VerifyWithOptions / VerifyBatch.",
+        TB + " Not decided: cross-acceptance impossibility itself (needs collision resistance of SHA-512).",
+        "interval-partition evaluation of guards + hash-transcript typestate on go/ssa", "DESIGN.md section 5 C07")
+    chk("C09", "other",
+        "Decides the shape of the small-order predicate: undecodable => small, exactly three doublings, identity test on the contracted X, Y, Z (X=0 and Y=Z), used at exactly the documented call sites and always gated by !zip215 (single and batch).",
+        TB + " Not decided: the doubling formula's algebra and the group theory of the torsion subgroup.",
+        "def-use term reconstruction + guard truth tables", "DESIGN.md section 5 C09")
+    chk("C10", "other",
+        "Decides the structure of the lenient decoder (exactly one rejection, sign from bit 255 compared with the parity of the contracted x, y=Expand(p), z=1, t=xy), that UnpackVartime flips bit 255 on a private copy, and that Pack writes Contract(y/z) with the parity of Contract(x/z) folded into bit 255 (byte truth tables), on every configuration of the tier.",
+        TB + " Not decided: that the exponentiation chain computes the square root and that Contract is canonical for every representation (numeric).",
+        "path enumeration + def-use term reconstruction + byte truth tables", "DESIGN.md section 5 C10")
+    chk("C11", "other",
+        "Decides the error/no-output contract of X25519 on all length classes, that the fast path is selected by slice identity only, the clamp and the raw (unreduced) scalar expansion, the u=(Y+Z)/(Z-Y) operand shape and the delegation of the generic path.",
+        TB + " Not decided: agreement of the Edwards fast path with the Montgomery ladder on all scalars (numeric).",
+        "guard truth tables over length classes + def-use term reconstruction", "DESIGN.md section 5 C11")
+    chk("C12", "other",
+        "Decides that the private conversion is clamp(SHA-512(seed)[:32]) in a fresh slice, and that the public conversion fails exactly when decoding fails and otherwise returns Contract((1+y)*Recip(1-y)).",
+        TB + " Not decided: commutation with key generation (numeric).",
+        "def-use term reconstruction + hash-transcript typestate", "DESIGN.md section 5 C12")
+    chk("C14", "other",
+        "Decides that GenerateKey passes the reader to exactly one io.ReadFull on a fresh 32-byte buffer with error => (nil,nil,err), that the private key is seed||public, that Public/Seed return the right halves and that Equal is same dynamic type plus whole-slice equality.",
+        TB,
+        "path enumeration + def-use term reconstruction", "DESIGN.md section 5 C14")
+    chk("C17", "other",
+        "Decides the set-up of the batch equation (slot/term correspondence, one randomiser in its three places, base point in slot 0, count 2n+1, summation before slot reuse, per-chunk re-initialisation) and that the fallback is entered iff the fast-path flag is false.",
+        TB + " Not decided: exactness of the Bos-Coster heap arithmetic.",
+        "per-iteration region path enumeration with affine index normal forms", "DESIGN.md section 5 C17")
